@@ -45,6 +45,27 @@ CLAIMED = {
              "(which numpy call reaches which override) exercised by the harness. Partial: the property itself "
              "fails on 8 listed routes (known findings) - the theorem covers exactly the complement.",
         technique="Lean 4 proof (invariant over op lists) + generated table obligations + differential correspondence"),
+    "C08": dict(
+        category="proof", design_ref="DESIGN.md 5 C08",
+        text="Lean 4 theorems about byte-level models of the layouts that are trimesh's own code: little-endian "
+             "32-bit words are bit-exact; records cut from a concatenation of fixed-size records come back in file "
+             "order; binary STL (80-byte header, count, 50-byte records) decodes to exactly what was encoded for "
+             "every header and every list of < 2^32 records, and anything the loader accepts has exactly the "
+             "announced length; GLB framing (header arithmetic, JSON padding by 1..4 spaces, BIN chunk loop) is "
+             "lossless; bufferViews tile the binary chunk (slice i = item i, adjacent, 4-byte aligned); packed "
+             "PLY vertex / face blocks split back into the same records; delimiter-separated text rows parse "
+             "back to the same tokens in order; base64 is lossless. Tied to the code by running the Lean "
+             "encoder / decoder against export_stl / load_stl_binary (also on damaged files), export_glb, "
+             "_build_views, array_to_string and base64 byte for byte, and by an element-by-element round trip of "
+             "every exporter / loader pair (STL bin/ascii, PLY bin/ascii, OFF, OBJ, GLB, glTF, 3MF, DAE, dict, "
+             "dict64, XYZ, DXF, SVG, path dict, with non-default options) on meshes, instanced / nested scenes, "
+             "point clouds and paths: order, float32 bit-exactness, printed digits, colours, instance placement, "
+             "hash unchanged by export.",
+        note="Trusted: Lean kernel (+propext/Classical.choice/Quot.sound); json, lxml / zip, collada, python float "
+             "formatting are exercised not modelled; what a format carries is read off trimesh's exporter (no "
+             "face colours in ascii PLY / OFF / GLB). Partial: text and XML formats are covered by the round "
+             "trip only. Three defects repaired (xyz without colours, 3MF build items, path dict re-import).",
+        technique="Lean 4 proof (byte-level codec round trips) + byte-for-byte and element-wise differential correspondence"),
     "C09": dict(
         category="proof", design_ref="DESIGN.md 5 C09",
         text="Lean 4 theorems generic in the node type and in any group of edge matrices: well-formedness "
